@@ -169,4 +169,43 @@ func init() {
 		t := buildDep(a)
 		return sx.B(t.String())
 	})
+	// attr_equal: (flavor pairsA pairsB) -> (Equal(a,b) Equal(b,a) Compare-or-0 dumpA dumpB): equality is observed
+	// through every exported entry point, in both directions
+	register("attr_equal", func(a sx.V) sx.V {
+		if a.Nth(0).Int() == 0 {
+			x, y := buildDep(a.Nth(1)), buildDep(a.Nth(2))
+			return sx.L(sx.Bool(x.Equal(y)), sx.Bool(y.Equal(x)), sx.Int(x.Compare(y)), dumpDep(&x), dumpDep(&y))
+		}
+		x, y := buildVer(a.Nth(1)), buildVer(a.Nth(2))
+		return sx.L(sx.Bool(x.Equal(y)), sx.Bool(y.Equal(x)), sx.Int(0), dumpVer(x), dumpVer(y))
+	})
+	// parse_twice: (flavor text key val): parse, dump, write one attribute into the RESULT, parse the same text
+	// again and dump: a parsed set is a value of its own, so both dumps are equal
+	register("parse_twice", func(a sx.V) sx.V {
+		text, k, val := a.Nth(1).Str(), a.Nth(2).Int(), a.Nth(3).Str()
+		if a.Nth(0).Int() == 0 {
+			t1, err := schema.VerifDepParseString(text)
+			if err != nil {
+				return sx.L(sx.Sym("err"))
+			}
+			d1 := dumpDep(&t1)
+			safely(func() { t1.AddAttr(dep.AttrKey(k), val) })
+			t2, err := schema.VerifDepParseString(text)
+			if err != nil {
+				return sx.L(sx.Sym("err2"))
+			}
+			return sx.L(sx.Sym("ok"), d1, dumpDep(&t2))
+		}
+		t1, err := schema.VerifVersionParseString(text)
+		if err != nil {
+			return sx.L(sx.Sym("err"))
+		}
+		d1 := dumpVer(t1)
+		safely(func() { t1.SetAttr(version.AttrKey(k), val) })
+		t2, err := schema.VerifVersionParseString(text)
+		if err != nil {
+			return sx.L(sx.Sym("err2"))
+		}
+		return sx.L(sx.Sym("ok"), d1, dumpVer(t2))
+	})
 }
